@@ -1,6 +1,6 @@
 (* C14  Completion counts arrive exactly, including for zero-column resultsets.
    Property theorems only (closed by `exact`), plus non-vacuity examples. *)
-From MsqlVerif Require Import Model.Codec Spec.Client Proofs.CodecClient.
+From MsqlVerif Require Import Model.Codec Model.Resultset Spec.Client Spec.Render Proofs.CodecClient Proofs.Extras.
 Open Scope N_scope.
 
 (* every u64 survives the length-encoded-integer encoding, in all four size classes, whatever follows *)
@@ -14,6 +14,21 @@ Theorem C14_ok_roundtrip : forall rows id status,
   c_ok (ok_body rows id status) =
     Some {| ok_rows := rows; ok_id := id; ok_status := status; ok_warnings := 0 |}.
 Proof. exact ok_roundtrip. Qed.
+
+(* a completion reported by the shim denotes exactly one OK unit with the given counts -- single and
+   chained; with C03_client_decodes this is what the client decodes, in text and binary mode *)
+Theorem C14_completed : forall errtab bin r i, un_q errtab bin (QCompleted r i) = Some [UOk r i].
+Proof. exact un_completed. Qed.
+Theorem C14_complete_one : forall errtab bin r i k,
+  un_q errtab bin (QCompleteOne r i k) = ocons (UOk r i) (un_q errtab bin k).
+Proof. exact un_complete_one. Qed.
+
+(* a resultset declared with zero columns is reported as an OK whose affected-row count equals the
+   number of rows the shim ENDED (end_row / write_row; write_col does not count), for every number
+   of rows and every interleaving of the three calls; last-insert-id 0 *)
+Theorem C14_zero_columns : forall errtab bin steps,
+  un_q errtab bin (QStart [] (zprog steps RFinish)) = Some [UOk (N.of_nat (zcount steps)) 0].
+Proof. exact un_zero_cols. Qed.
 
 (* non-vacuity / boundary examples: 250|251, 2^16, 2^24, 2^64-1 *)
 Example C14_examples :
